@@ -8,6 +8,14 @@ Monitors
       (Qbfs / 2D-Q: exact Gram-Schmidt from the orthonormal-gradient definition, which reproduces Forbes' published
       closed forms n<=5 exactly), rounded once.  Shape of the result must be the shape of the coordinates.
       Secondary float oracle: scipy.special.eval_* on whole arrays (n <= 40).
+  M1s the same definition-contracts attached to the real sequence-form routines (jacobi_seq, legendre_seq, cheby1..4_seq,
+      hermite_He_seq, hermite_H_seq, laguerre_seq, dickson1_seq, dickson2_seq, Qbfs_seq, Qcon_seq, zernike_nm_seq with
+      norm=True and norm=False, Q2d_seq, xy_seq): row k of every result - also of the calls prysm makes internally
+      (cheby*_seq / legendre_seq / Qcon_seq / zernike_nm_seq -> jacobi_seq, Q2d_seq -> Qbfs_seq, xy_seq -> dickson2_seq) -
+      is compared with the exact definition of the k-th requested order (same oracles, same tolerances), and the shape must
+      be (len(orders), *coordinate shape).  A failure is attributed to a mechanism class by re-running the original routine
+      (quietly: not monitored, not counted) on neighbouring order lists: list-independent / omits-order-<o> /
+      gap-above-order-2 / with-companion-orders (one index), after-|before-<relation of the triggering term> (two indices).
   M2  orthogonality by exact quadrature (law monitors driven by the workload): Gauss-Jacobi Gram matrices with the
       textbook norms h_n for jacobi / legendre / cheby1-4 (and Gauss-Hermite / Gauss-Laguerre ones, implied by the
       definitions), Zernike Gram = I on the unit disk, Qbfs slope Gram = I and 2D-Q gradient Gram = I under
@@ -18,7 +26,7 @@ import sys
 
 import numpy as np
 
-from ..contracts import attach, detach_all
+from ..contracts import attach, detach_all, quiet
 from ..refmodels import poly_exact as E
 
 Q = E.Q
@@ -27,8 +35,16 @@ RULE = ('families x parameter classes (Chebyshev half-integers, Legendre, (0,4),
         'parameters in (-1,5), two non-dyadic pairs) x every order 0..N x dyadic-rational grids incl. both end points, '
         'then input-shape classes (python float, numpy scalar, 0-d, 1-D, 2-D, 3-D, float32) and random float points; '
         'all (n,m) of valid parity for Zernike, all (n,|m|<=M) for 2D-Q; Gram matrices by Gauss quadrature exact for '
-        'the degrees used. A case is non-trivial when the polynomial has degree >= 1; distinct = distinct descriptor '
-        '(family, parameters, order, input class, point-set)')
+        'the degrees used. Sequence forms: every *_seq routine x parameter sets x hostile order lists (ALL non-empty ascending '
+        'subsets of {0..6} (thorough {0..7}) on 0-D, 1-D and 2-D coordinates; singletons of every order up to the bound; dense '
+        'lists; contiguous lists starting at 1, 2, >=3; gapped lists omitting 0, 1, 2 or higher orders; random sorted lists; order '
+        'list given as list / tuple / ndarray / range) x coordinate classes (0-D, 1-D incl. both end points, 2-D, 2-D with leading '
+        'dimension len(orders), 3-D, length-1, non-contiguous, float32); two-index families: singletons of every term, (n,+m),(n,-m) '
+        'pairs in both orders, repeated terms, m=0-only and mixed lists, unsorted same-|m| lists, lists omitting the low radial '
+        'orders, the m=1 / m>=2 branches of Q2d_seq by largest order, full sets forward and reversed, random shuffled lists with '
+        'repeats, terms as tuples or lists, every norm option (True / False / default), cartesian (meshgrid, separable, 1xN, Mx1) '
+        'and general coordinates for xy_seq. A case is non-trivial when the polynomial has degree >= 1; distinct = distinct '
+        'descriptor (family, parameters, order or order list, input class, point-set)')
 ASSUMPTIONS = ['textbook definitions as written in vp/refmodels/poly_exact.py (Szego 4.3.2 Jacobi sum; Mason-Handscomb '
                'numbering of the 3rd/4th-kind Chebyshev polynomials; Dickson D_0 = 2; Zernike norm sqrt(2(n+1)/(1+delta_m0)))',
                'Qbfs / 2D-Q are defined by: degree n in u^2, positive at the origin, orthonormal gradients under '
@@ -36,7 +52,12 @@ ASSUMPTIONS = ['textbook definitions as written in vp/refmodels/poly_exact.py (S
                'reproduces Forbes 2007 eq. 2.7 closed forms exactly)',
                'fractions.Fraction arithmetic and float(Fraction) rounding are exact / correctly rounded',
                'numpy/scipy Gauss rules (roots_jacobi, hermgauss, hermegauss, roots_genlaguerre, leggauss) and math.lgamma',
-               'math.cos/sin for the azimuthal factor of Zernike / 2D-Q / Hopkins']
+               'math.cos/sin for the azimuthal factor of Zernike / 2D-Q / Hopkins',
+               'sequence forms: one-index order lists are in-domain when non-empty, non-negative and strictly ascending (documented: '
+               '"sorted polynomial orders"), two-index term lists in any order with repeats; coordinates are floating ndarrays, r and t '
+               'of one common shape; other requests reaching a contract are excluded and counted',
+               'xy_seq with cartesian_grid=True and 0-D/1-D coordinates is excluded and counted (grid-axes vs point-list reading is the '
+               'open C08 ledger entry), cartesian 2-D grids are read as documented: arr[y, x], first row / first column']
 REQUIRED = ['value.jacobi', 'value.legendre', 'value.cheby1', 'value.cheby2', 'value.cheby3', 'value.cheby4',
             'value.hermite_He', 'value.hermite_H', 'value.laguerre', 'value.dickson1', 'value.dickson2',
             'value.zernike_nm', 'value.Qbfs', 'value.Qcon', 'value.Q2d', 'value.xy', 'value.hopkins',
@@ -388,6 +409,35 @@ def list_label(ns):
     om = [o for o in (0, 1, 2) if o not in ns and o < ns[-1]]
     base = 'starts>=3' if ns[0] >= 3 else ('has-0-1-2' if not om else 'omits-' + ','.join(str(o) for o in om))
     return base + (':contiguous' if ns == list(range(ns[0], ns[-1] + 1)) else ':gapped')
+
+
+def seq_call(ctx, fn, desc, call, flat, singles):
+    """Run call() (a *_seq request of the workload, in-domain).  An exception escaping prysm is a violation
+    C07/<fn>/<class>/raises:<Type>; the class is found by re-running the ORIGINAL routine quietly (not monitored, not counted):
+    x=<k>d when the same request is served for the flattened (1-D) coordinates, else the class of the first requested
+    term that raises when requested alone, else multi-term-list (every requested term alone is served).
+    flat: callable or None; singles: list of (class label, callable)."""
+    try:
+        call()
+    except Exception as e:  # noqa
+        def raises(f):
+            try:
+                with np.errstate(all='ignore'):
+                    f()
+                return False
+            except Exception:  # noqa
+                return True
+        with quiet():
+            if flat is not None and not raises(flat[1]):
+                cls = f'x={flat[0]}'
+            else:
+                cls = next((lab for lab, f in singles if raises(f)), 'multi-term-list' if len(singles) > 1 else 'single-term-list')
+        import traceback
+        from ..core import REPO
+        tb = traceback.extract_tb(e.__traceback__)
+        where = [f'{f.filename[len(REPO) + 1:]}:{f.lineno}:{f.name}' for f in tb if f.filename.startswith(REPO)][-3:]
+        ctx.violation(f'C07/{fn}/{cls}/raises:{type(e).__name__}', f'{fn} raises {type(e).__name__} on an in-domain request: {str(e)[:160]}', desc,
+                      exception=repr(e)[:300], where=where)
 
 
 def short(lst, n=12):
@@ -1095,7 +1145,7 @@ def seq_order_lists(ctx, rng, top):
              [3, 5, 8, 13, 21, 34], [0, 9], [1, 9], [2, 9], [0, 1, 9], [0, 1, 2, 9, 10], [0, 1, 2, 4, 6, 8, 10],
              list(range(0, top + 1, 2)), list(range(1, top, 2)), list(range(2, 30, 3)), list(range(3, top + 1, 5))]
     out += [('gapped', sorted(set(v for v in l if v <= top))) for l in fixed]
-    for _ in range(ctx.pick(16, 150)):
+    for _ in range(ctx.pick(16, 400)):
         k = int(rng.integers(1, 9))
         tp = int(rng.choice([8, 12, 20, 40, top]))
         out.append(('random', sorted(int(v) for v in rng.choice(tp + 1, size=min(k, tp + 1), replace=False))))
@@ -1136,8 +1186,9 @@ def seq1d_unit(ctx, P, fn, params, lists, rng, part, nparts, small=False):
             desc = {'wl': 'seq', 'fn': fn, 'ns': short(ns), 'kind': kind, 'list': list_label(ns), 'params': list(params), 'xcls': cls,
                     'orders_as': type(cont).__name__, 'class': f'{fn}:{kind}:{cls}'}
             ctx.case(desc, nontrivial=top >= 1)
-            with ctx.guard(f'C07/{fn}/{list_label(ns)}/x={cls}', desc):
-                f(cont, *params, x)
+            seq_call(ctx, fn, desc, lambda: f(cont, *params, x),
+                     (f'{x.ndim}d', lambda: ORIG[fn](ns, *params, x.reshape(-1))) if x.ndim != 1 else None,
+                     [(nclass(n), lambda n=n: ORIG[fn]([n], *params, x)) for n in (ns if k <= 8 else ns[:4] + ns[-4:])])
 
 
 def nm_coords(rng, k, it, dom01=True):
@@ -1170,7 +1221,7 @@ def zernike_term_lists(ctx, rng):
           ('omits-low-radial', [(7, 3), (9, 3), (9, -3)]), ('omits-low-radial', [(6, 0), (8, 0)])]
     low = [(n, m) for n, m in valid if n <= 4]
     L += [('full-low-set', low), ('full-low-set-reversed', low[::-1]), ('full-set', valid), ('full-set-reversed', valid[::-1])]
-    for _ in range(ctx.pick(24, 240)):
+    for _ in range(ctx.pick(24, 600)):
         k = int(rng.integers(2, 10))
         pickd = [valid[i] for i in rng.integers(0, len(valid), size=k)]          # with replacement: repeats occur
         if rng.random() < 0.5:
@@ -1197,8 +1248,9 @@ def zernike_seq_unit(ctx, P, lists, rng, part, nparts):
                 desc = {'wl': 'seq', 'fn': 'zernike_nm_seq', 'nms': short(nms), 'kind': kind, 'opt': opt, 'xcls': cls,
                         'class': f'zernike_nm_seq:{kind}:{opt}:{cls}'}
                 ctx.case(desc, nontrivial=max(n for n, m in nms) >= 1)
-                with ctx.guard(f'C07/zernike_nm_seq/{kind}/{opt}/x={cls}', desc):
-                    P.zernike_nm_seq([list(e) for e in nms] if as_lists else nms, r, t, **kw)
+                seq_call(ctx, 'zernike_nm_seq', desc, lambda: P.zernike_nm_seq([list(e) for e in nms] if as_lists else nms, r, t, **kw),
+                         (f'{r.ndim}d', lambda: ORIG['zernike_nm_seq'](nms, r.reshape(-1), t.reshape(-1), **kw)) if r.ndim != 1 else None,
+                         [(zmclass(e[1]), lambda e=e: ORIG['zernike_nm_seq']([e], r, t, **kw)) for e in nms[:12]])
 
 
 def q2d_term_lists(ctx, rng):
@@ -1217,7 +1269,7 @@ def q2d_term_lists(ctx, rng):
           ('omits-low-orders', [(3, 1), (5, -1)]), ('omits-low-orders', [(4, 2)]), ('omits-low-orders', [(5, 0), (3, 0)]), ('omits-low-orders', [(2, 3), (6, 3), (6, -3)])]
     full = [(n, m) for n in range(4) for m in range(-3, 4)]
     L += [('full-low-set', full), ('full-low-set-reversed', full[::-1])]
-    for _ in range(ctx.pick(24, 240)):
+    for _ in range(ctx.pick(24, 600)):
         k = int(rng.integers(2, 9))
         pickd = [(int(rng.integers(0, N + 1)), int(rng.integers(-M, M + 1))) for _ in range(k)]
         if rng.random() < 0.5:
@@ -1241,8 +1293,9 @@ def q2d_seq_unit(ctx, P, lists, rng, part, nparts):
                 continue
             desc = {'wl': 'seq', 'fn': 'Q2d_seq', 'nms': short(nms), 'kind': kind, 'xcls': cls, 'class': f'Q2d_seq:{kind}:{cls}'}
             ctx.case(desc)
-            with ctx.guard(f'C07/Q2d_seq/{kind}/x={cls}', desc):
-                P.Q2d_seq([list(e) for e in nms] if li % 4 == 3 else nms, r, t)
+            seq_call(ctx, 'Q2d_seq', desc, lambda: P.Q2d_seq([list(e) for e in nms] if li % 4 == 3 else nms, r, t),
+                     (f'{r.ndim}d', lambda: ORIG['Q2d_seq'](nms, r.reshape(-1), t.reshape(-1))) if r.ndim != 1 else None,
+                     [(q2d_mclass(e[1]), lambda e=e: ORIG['Q2d_seq']([e], r, t)) for e in nms[:12]])
 
 
 def xy_term_lists(ctx, rng, P):
@@ -1255,7 +1308,7 @@ def xy_term_lists(ctx, rng, P):
           ('max-exponents-in-different-terms', [(5, 0), (0, 4), (1, 1)]), ('max-exponents-in-different-terms', [(1, 6), (6, 1)]),
           ('repeated', [(2, 1), (2, 1)]), ('repeated', [(1, 2), (2, 1), (1, 2)]), ('unsorted', [(3, 3), (0, 1), (2, 0), (1, 1), (0, 0)]),
           ('omits-low-exponents', [(3, 4), (5, 3)]), ('omits-low-exponents', [(2, 2)]), ('transposed-pair', [(1, 3), (3, 1)])]
-    for _ in range(ctx.pick(24, 240)):
+    for _ in range(ctx.pick(24, 600)):
         k = int(rng.integers(1, 9))
         pickd = [(int(a), int(b)) for a, b in rng.integers(0, M + 1, size=(k, 2))]
         if rng.random() < 0.3:
@@ -1288,8 +1341,11 @@ def xy_seq_unit(ctx, P, lists, rng, part, nparts):
                 continue
             desc = {'wl': 'seq', 'fn': 'xy_seq', 'mns': short(mns), 'kind': kind, 'xcls': cls, 'class': f'xy_seq:{kind}:{cls}'}
             ctx.case(desc, nontrivial=max(m + n for m, n in mns) >= 1)
-            with ctx.guard(f'C07/xy_seq/{kind}/x={cls}', desc):
-                P.xy_seq([list(e) for e in mns] if li % 4 == 3 else mns, x, y, **({} if (cart and li % 2) else {'cartesian_grid': cart}))
+            cg = 'cartesian' if cart else 'general'
+            seq_call(ctx, 'xy_seq', desc,
+                     lambda: P.xy_seq([list(e) for e in mns] if li % 4 == 3 else mns, x, y, **({} if (cart and li % 2) else {'cartesian_grid': cart})),
+                     (f'{cg}-{x.ndim}d', lambda: ORIG['xy_seq'](mns, *[c.reshape(-1) for c in np.broadcast_arrays(x, y)], cartesian_grid=False)) if x.ndim != 1 else None,
+                     [(cg, lambda e=e: ORIG['xy_seq']([e], x, y, cartesian_grid=cart)) for e in mns[:12]])
 
 
 def seq_units(ctx, P):
